@@ -81,6 +81,7 @@ let fmt_err = function
   | EPreset n -> "ERR Preset " ^ enc n
   | ERemote k -> "ERR Remote " ^ dec_of_n k
   | EResolution p -> "ERR Resolution " ^ enc p
+  | EBadKey k -> "ERR BadKey " ^ enc k
 let fmt_res = function
   | Ok (v, pu) -> "OK " ^ enc_opt pu ^ " " ^ fmt_value v
   | Err e -> fmt_err e
@@ -110,11 +111,26 @@ let parse_fs (items : string list) : fsys =
 
 (* ---- C18 *)
 let parse_policy = function "normal" -> Normal | "offline" -> Offline | "refresh" -> Refresh | x -> failwith ("policy " ^ x)
+(* cache entry: ! absent | <mtime>:<enc text> | G<mtime>:<bytes, comma separated> (a file whose bytes
+   are not UTF-8) | D<mtime> (a directory at the entry path) *)
 let parse_cache s = if s = "!" then None else
+    let rest = String.sub s 1 (String.length s - 1) in
+    if s.[0] = 'D' then Some { c_body = []; c_mtime = n_of_dec rest; c_kind = EDir }
+    else if s.[0] = 'G' then
+      (match String.split_on_char ':' rest with
+       | [m; b] -> Some { c_body = dec b; c_mtime = n_of_dec m; c_kind = EGarbled }
+       | _ -> failwith "cache")
+    else
     match String.split_on_char ':' s with
-    | [m; b] -> Some { c_body = dec b; c_mtime = n_of_dec m }
+    | [m; b] -> Some { c_body = dec b; c_mtime = n_of_dec m; c_kind = EText }
     | _ -> failwith "cache"
-let fmt_cache = function None -> "!" | Some e -> dec_of_n e.c_mtime ^ ":" ^ enc e.c_body
+let fmt_cache = function
+  | None -> "!"
+  | Some e ->
+    (match e.c_kind with
+     | EText -> dec_of_n e.c_mtime ^ ":" ^ enc e.c_body
+     | EGarbled -> "G" ^ dec_of_n e.c_mtime ^ ":" ^ enc e.c_body
+     | EDir -> "D" ^ dec_of_n e.c_mtime)
 let parse_server s = match String.split_on_char ':' s with
   | ["B"; b] -> SBody (dec b) | ["F"; k] -> SFail (n_of_dec k) | _ -> failwith "server"
 let parse_htable s : str -> str =
